@@ -1299,6 +1299,21 @@ func (l *location) markRead(min, max int64) {
 	}
 }
 
+// sortLocations orders the blocks of a key for a KeyCursor.  The Less of ascLocations and
+// descLocations ("by file when overlapping, else by time") is not a strict weak ordering
+// because overlap is not transitive, so sort.Sort, which partitions around pivots once there
+// are more than 12 elements, could put a newer file's block in front of an older file's
+// overlapping block, and the read then returned the older file's value.  The insertion sort
+// sort.Sort already uses for up to 12 elements moves a block only in front of blocks it must
+// precede, whatever their number.
+func sortLocations(a sort.Interface) {
+	for i := 1; i < a.Len(); i++ {
+		for j := i; j > 0 && a.Less(j, j-1); j-- {
+			a.Swap(j, j-1)
+		}
+	}
+}
+
 type descLocations []*location
 
 // Sort methods
@@ -1335,9 +1350,9 @@ func newKeyCursor(ctx context.Context, fs *FileStore, key []byte, t int64, ascen
 	}
 
 	if ascending {
-		sort.Sort(ascLocations(c.seeks))
+		sortLocations(ascLocations(c.seeks))
 	} else {
-		sort.Sort(descLocations(c.seeks))
+		sortLocations(descLocations(c.seeks))
 	}
 
 	// Determine the distinct set of TSM files in use and mark then as in-use
